@@ -10,6 +10,7 @@ import (
 	"net/url"
 	"time"
 
+	"github.com/lestrrat-go/jwx/v2/jwt"
 	"github.com/nuts-foundation/nuts-node/crypto/dpop"
 )
 
@@ -22,8 +23,15 @@ func hC02DPoPParse(s string) (*dpop.DPoP, error) {
 	if !hC02DPoPOK {
 		return nil, errors.Join(dpop.ErrInvalidDPoP, errors.New("harness: invalid proof"))
 	}
-	return &dpop.DPoP{Kid: "kid"}, nil
+	// contract of dpop.Parse: a successfully parsed proof always carries its token, and the token has a jti
+	// (dpop.Parse refuses a proof without one)
+	return &dpop.DPoP{Kid: "kid", Token: hC02DPoPToken{}}, nil
 }
+
+// hC02DPoPToken: the parsed proof's claims as far as the token endpoint reads them (the proof id).
+type hC02DPoPToken struct{ jwt.Token }
+
+func (hC02DPoPToken) JwtID() string { return "proof-1" }
 
 // hC02B64Sym maps a six-bit group to its symbol in the URL-safe alphabet of RFC 4648 section 5 (Table 2),
 // by ranges (no table lookup: a symbolic table index would fork).
